@@ -231,6 +231,8 @@ type RtspCase struct {
 	// Repeat > 0 (regression corpus only): the exchange is repeated on that many further fresh servers, to give a
 	// scheduling-dependent failure (lal hands the publisher's SDP to the group in a goroutine of its own) a chance
 	Repeat int `json:"repeat,omitempty"`
+	// ForceRepublish (regression corpus only): re-publish the hostile stream name afterwards whatever the case's key
+	ForceRepublish bool `json:"force_republish,omitempty"`
 
 	trackOverride []trackInfo // client-role cases: the tracks as lal's client numbers them
 }
@@ -1223,7 +1225,7 @@ func runRtspOnce(c RtspCase) *pbt.Violation {
 	if v := deliverRtsp(s, conn, tail, c.Slices, fd, c.FeedAfter, c.TicksAfter, conn.WaitPeerDone, "rtsp.(*Server).handleTcpConnect", "rtsp"); v != nil {
 		return v
 	}
-	if !c.subscriberSide() && fd.key%2 == 0 {
+	if !c.subscriberSide() && (fd.key%2 == 0 || c.ForceRepublish) {
 		// the hostile session has returned: the name it used must be usable again
 		if v := republish(s, "c13hostile"); v != nil {
 			return v
